@@ -734,7 +734,7 @@ func (s *session) AsyncCall(
 	result interface{},
 	callCmdChan chan<- CallCmd,
 	setting ...MessageSetting,
-) CallCmd {
+) (ret CallCmd) {
 	if callCmdChan == nil {
 		callCmdChan = make(chan CallCmd, 10) // buffered.
 	} else {
@@ -794,14 +794,23 @@ func (s *session) AsyncCall(
 	s.callCmdMap.Store(seq, cmd)
 	verifGate("asynccall.afterStore", s)
 
+	var sent bool
 	defer func() {
 		if p := recover(); p != nil {
 			Errorf("panic:%v\n%s", p, goutil.PanicTrace(2))
+			ret = cmd
+			if !sent {
+				// the call was not written (e.g. the encoder of its argument panicked):
+				// it completes with that failure instead of staying registered for ever
+				cmd.stat = statWriteFailed.Copy(p)
+				cmd.done()
+			}
 		}
 	}()
 
 	cmd.stat = s.peer.pluginContainer.preWriteCall(cmd)
 	if !cmd.stat.OK() {
+		sent = true // completed here
 		cmd.done()
 		return cmd
 	}
@@ -812,9 +821,11 @@ W:
 		if cmd.stat == statConnClosed && s.redialForClient(usedConn) {
 			goto W
 		}
+		sent = true // completed here
 		cmd.done()
 		return cmd
 	}
+	sent = true
 
 	verifGate("asynccall.afterWrite", s)
 	s.peer.pluginContainer.postWriteCall(cmd)
